@@ -99,6 +99,48 @@ def run(R):
     for i in range(0, len(jobs), 1500):
         recs = gramrun.run_grammars(jobs[i:i + 1500])
         gramrun.compare(R, recs, 'rep-sep', mechanism_of, reject_is_violation=True)
+    # bounds written as inline-Python EXPRESSIONS (outside the model's bound vocabulary): each must behave like the same
+    # grammar with the expression's value bound to a name first (a metamorphic pair run on the implementation)
+    import sys
+    sys.path.insert(0, core.REPO)
+    from sourcer import Grammar
+    deep = lambda x, d: '[' * d + x + ']' * d
+    pairs = []
+    for form, twin in (('{`n + 1`}', '{m}'), ('{`n + 1`,}', '{m,}'), ('{,`n + 1`}', '{,m}'), ('{1,`n + 1`}', '{1,m}')):
+        for ctx in ('{r}', '[{r}, /[0-9ab]*/]', '({r}) | /[0-9ab]+/', 'Twice({r})', deep('{r}', 18), 'Twice(' + deep('{r}', 3) + ')'):
+            a = 'start = let n = N in ' + ctx.format(r='"a"' + form) + '\nTwice(x) = [x, x]\n' + PRELUDE
+            b = 'start = let n = N in let m = `n + 1` in ' + ctx.format(r='"a"' + twin) + '\nTwice(x) = [x, x]\n' + PRELUDE
+            pairs.append((a, b))
+    for cond, val in (('n if n < 2 else 2', None), ('n or 1', None), ('max(n, 1)', None)):
+        a = 'start = let n = N in ["a"{`%s`}, /[0-9ab]*/]\n' % cond + PRELUDE
+        b = '```\ndef bound_of(n):\n    return %s\n```\nstart = let n = N in let m = `bound_of(n)` in ["a"{m}, /[0-9ab]*/]\n' % cond + PRELUDE
+        pairs.append((a, b))
+
+    def api(g, t):
+        try:
+            return 'return ' + repr(g.parse(t))
+        except g.PartialParseError as e:
+            return 'partial %r at %d' % (e.partial_result, e.last_position.index)
+        except g.ParseError as e:
+            return 'error at %d' % e.position.index
+        except Exception as e:                  # noqa
+            return 'exception ' + type(e).__name__
+    XT = [d + x for d in '0123' for x in ('', 'a', 'aa', 'aaa', 'aaaa', 'aaaaaa', 'ab', 'aab')]
+    for a, b in pairs:
+        R.count('expression-bounds', a, nontrivial=True)
+        try:
+            ga, gb = Grammar(a), Grammar(b)
+        except Exception as e:                  # noqa
+            R.counterexample('expression-bounds', 'expression-bound:grammar-rejected:' + type(e).__name__, {'grammar': a, 'twin': b}, 'two grammar modules', repr(e)[:150])
+            continue
+        for t in XT:
+            oa, ob = api(ga, t), api(gb, t)
+            if oa != ob:
+                R.counterexample('expression-bounds', 'expression-bound-differs-from-named-bound' + (':' + oa.split(' ')[1] if oa.startswith('exception') else ''),
+                                 {'grammar': a, 'twin': b, 'text': t}, ob, oa)
+                break
+        else:
+            R.traces += 1
     R.assumptions += ['regular expressions are an oracle (tables computed with Python re)',
                       'e{m,n} with a run-time m > n is outside the property (the constructor rejects it for literals): the specification makes no claim there']
     return R.finish(
